@@ -108,6 +108,13 @@ def install_reach():
 
 def worker(args):
     os.environ[GUARD] = "1"
+    try:
+        # a runaway case (a cross join fetched whole, a recursive render) becomes a MemoryError in this worker - an
+        # inconclusive harness error - instead of exhausting the machine
+        import resource
+        resource.setrlimit(resource.RLIMIT_AS, (6 << 30, 6 << 30))
+    except Exception:
+        pass
     t0 = time.time()
     reached = install_reach()
     mod = load_check(args.prop)
